@@ -137,7 +137,11 @@ def ensure_facts(config='default', repo=None, quiet=False):
         info = {'tree': th, 'config': config, 'files': [], 'extract_s': round(time.time() - t0, 2)}
         for f in files:
             d = json.load(open(f))
-            kind = ('bin' if d['is_bin'] else 'lib') + ('-test' if d['is_test'] else '')
+            root = d.get('root', '')
+            base = 'lib' if 'lib.rs' in root else 'bin' if 'main.rs' in root else ('bin' if d['is_bin'] else 'lib')
+            if 'examples/' in root or 'benches/' in root:
+                base = 'example'
+            kind = base + ('-test' if d['is_test'] else '')
             name = '%s-%s.json' % (d['crate'], kind)
             os.rename(f, os.path.join(tmp, name))
             info['files'].append({'name': name, 'crate': d['crate'], 'kind': kind, 'fns': len(d['fns'])})
